@@ -32,11 +32,10 @@ Clauses(e) ==
           <<"length", e.raised \/ e.len_x = e.n>> }
     ELSE { <<"unknown-event", FALSE>> }
 
-VARIABLES l, bad
-Init == l = 1 /\ bad = {}
+VARIABLES l, fails      \* fails: clauses failed by the event just consumed
+Init == l = 1 /\ fails = {}
 Next == /\ l <= Len(Trace)
         /\ l' = l + 1
-        /\ LET f == Failed(Clauses(Trace[l])) IN
-              bad' = IF f = {} THEN bad ELSE bad \cup {<<l, f>>}
-Spec == Init /\ [][Next]_<<l, bad>>
+        /\ fails' = Failed(Clauses(Trace[l]))
+Spec == Init /\ [][Next]_<<l, fails>>
 =============================================================================
